@@ -239,10 +239,11 @@ func checkTinyfoRecord(c *Ctx, t *FC) {
 }
 
 // C17.f — two lowering facts read off the typed syntax (diagnosable companions of the digest rule).
-//   f1: in NewBinOpCall the branch for `=` / `<>` returns, on every path, the call of the table's function
-//       (binfo.goFuncName: frt.OpEqual / frt.OpNotEqual, C17.a) on (lhs, rhs) — so `<>` is the negation of `=`
-//       for every operand form, as in fc (newEqNeq, C10.c);
-//   f2: in parseDestLetDefVar the k-th name of `let (a, b) = e` is bound to the k-th component type of e.
+//
+//	f1: in NewBinOpCall the branch for `=` / `<>` returns, on every path, the call of the table's function
+//	    (binfo.goFuncName: frt.OpEqual / frt.OpNotEqual, C17.a) on (lhs, rhs) — so `<>` is the negation of `=`
+//	    for every operand form, as in fc (newEqNeq, C10.c);
+//	f2: in parseDestLetDefVar the k-th name of `let (a, b) = e` is bound to the k-th component type of e.
 func checkTinyfoFacts(c *Ctx, t *FC) {
 	r := c.R
 	pkg := t.M.Main()
